@@ -38,6 +38,7 @@ class T:
         self.state = 'ready'      # ready | blocked | done
         self.block = None         # ('lock', obj) | ('event', obj, timeout) | ('poll', fn, timeout) | ('cond', fn)
         self.points = 0
+        self.last_switch_points = 0
         self.ident = None
         self.timed_out = False
         self.error = None
@@ -66,6 +67,7 @@ class Sched:
         self.random = None        # random.Random for PCT-style schedules
         self.switch_prob = 0.0
         self.n_points = 0
+        self.fair_quantum = 20000
         self.virtual_timeouts = 0
         self.double_instances = {'rlock': 0, 'event': 0}
 
@@ -138,9 +140,7 @@ class Sched:
             t = self.threads.get(name)
             if t is not None and t is not exclude and self._runnable(t):
                 return t
-            if t is exclude:
-                break
-            # directive names a thread that cannot run now: skip it
+            # directive names a thread that cannot run now (finished, blocked, or the one giving up the baton): skip it
             self.plan_i += 1
             self.plan_left = self.plan[self.plan_i][1] if self.plan_i < len(self.plan) else 0
         for name in self.order:
@@ -154,6 +154,7 @@ class Sched:
         if nxt.state == 'blocked':
             nxt.state = 'ready'
             nxt.block = None
+        nxt.last_switch_points = nxt.points
         self.current = nxt
         nxt.sem.release()
 
@@ -258,6 +259,13 @@ class Sched:
                         self._handoff(me, nxt, '%s:%d' % (filename.rsplit('/', 1)[-1], line))
                         self._park(me)
                 return
+        elif me.points - me.last_switch_points > self.fair_quantum:
+            # fairness: a thread that spins without ever blocking must not starve the others for ever
+            me.last_switch_points = me.points
+            others = [t for t in self.threads.values() if t is not me and self._runnable(t)]
+            if others:
+                self._handoff(me, others[0], 'fairness')
+                self._park(me)
         elif self.random is not None and self.random.random() < self.switch_prob:
             others = [t for t in self.threads.values() if t is not me and self._runnable(t)]
             if others:
